@@ -17,9 +17,7 @@
 //!    (how the store last became empty, NULL seen / partial emit since then).
 //!
 //! Reference model: `Vec<key>`; see `run_history` for the exact demands.
-use std::cell::RefCell;
 use std::collections::{BTreeMap, HashMap, HashSet};
-use std::sync::mpsc::{Receiver, Sender, channel};
 use std::sync::{Arc, Mutex};
 
 use arrow::array::*;
@@ -595,7 +593,7 @@ struct Case {
 }
 
 /// Hidden-state abstraction used to refine the canonical state key.
-#[derive(Clone, Debug, PartialEq, Eq, Hash)]
+#[derive(Clone, Debug, PartialEq, Eq, Hash, Serialize, Deserialize)]
 struct StateKey {
     live: Vec<usize>,
     origin: u8, // how the store last became empty: 0 fresh, 1 emit_all, 2 clear, 3 emit_first(len)
@@ -603,14 +601,15 @@ struct StateKey {
     emitted_first: bool,
 }
 
+#[derive(Serialize, Deserialize)]
 enum Outcome {
     Ok { key: StateKey, nontrivial: bool, out_of_order: bool },
     Disabled,
-    Violation { code: &'static str, detail: String },
+    Violation { code: String, detail: String },
 }
 
 fn viol(code: &'static str, detail: String) -> Outcome {
-    Outcome::Violation { code, detail }
+    Outcome::Violation { code: code.to_string(), detail }
 }
 
 fn fmt_key(k: &[V]) -> String {
@@ -838,32 +837,93 @@ fn run_history(def: &SchemaDef, sorted: bool, enc: u8, history: &[Op], mut trace
 // ---------------------------------------------------------------------------
 //
 // With debug assertions on, an out-of-range `get_unchecked` inside the subject is
-// a *non-unwinding* panic (the process would abort).  Every history is therefore
-// executed on a separate executor thread; the panic hook recognises non-unwinding
-// panics, reports them to the waiting explorer through a thread-local channel and
-// parks the doomed thread forever (the precondition check fires *before* the
-// out-of-bounds access, so nothing undefined has happened yet).  The explorer
-// records an `ABORT` violation and continues with a fresh executor.
+// a *non-unwinding* panic: the process aborts.  Histories are therefore replayed
+// in worker *processes* (`c13 --worker`, one per explorer thread): a job is one
+// JSON line on the worker's stdin (a prefix and a list of tails, each history
+// replayed on a fresh store), the replies are JSON lines on its stdout.  The
+// worker's panic hook recognises non-unwinding panics, flushes the replies
+// produced so far plus an `Aborted` reply, and lets the process die; the explorer
+// records an `ABORT` violation, starts a fresh worker and resubmits the rest.
 
+#[derive(Serialize, Deserialize)]
 struct Job {
     si: usize,
     sorted: bool,
     enc: u8,
-    /// histories to replay, each on a fresh store; one reply per history, in order
-    histories: Vec<Vec<Op>>,
+    prefix: Vec<Op>,
+    /// histories to replay = prefix ++ tail, each on a fresh store; one reply per tail, in order
+    tails: Vec<Vec<Op>>,
     want_trace: bool,
 }
 
+#[derive(Serialize, Deserialize)]
 enum Reply {
     Done(Outcome, Vec<Value>),
     Aborted(String),
 }
 
-thread_local! {
-    static ABORT_TX: RefCell<Option<Sender<Reply>>> = const { RefCell::new(None) };
+/// Replies of the current job not yet written to stdout (worker side).
+static WORKER_OUT: Mutex<Vec<u8>> = Mutex::new(Vec::new());
+
+fn worker_flush() {
+    use std::io::Write;
+    let mut buf = match WORKER_OUT.try_lock() {
+        Ok(b) => b,
+        Err(_) => return,
+    };
+    let mut so = std::io::stdout().lock();
+    let _ = so.write_all(&buf);
+    let _ = so.flush();
+    buf.clear();
 }
 
-fn install_panic_hook() {
+/// Reply line: `D` (disabled), `O<flags> <origin> <live ids...>` (oracle satisfied, no
+/// trace) or `J<json>` (everything else).
+fn worker_push(r: &Reply) {
+    use std::io::Write;
+    let mut buf = WORKER_OUT.lock().unwrap();
+    match r {
+        Reply::Done(Outcome::Disabled, _) => buf.extend_from_slice(b"D\n"),
+        Reply::Done(Outcome::Ok { key, nontrivial, out_of_order }, trace) if trace.is_empty() => {
+            let flags = (*nontrivial as u8) | (*out_of_order as u8) << 1 | (key.seen_null as u8) << 2 | (key.emitted_first as u8) << 3;
+            let _ = write!(buf, "O{} {}", flags, key.origin);
+            for l in &key.live {
+                let _ = write!(buf, " {l}");
+            }
+            buf.push(b'\n');
+        }
+        other => {
+            buf.push(b'J');
+            serde_json::to_writer(&mut *buf, other).expect("harness: serialising a reply");
+            buf.push(b'\n');
+        }
+    }
+}
+
+fn parse_reply(line: &str) -> Reply {
+    let line = line.trim_end();
+    match line.as_bytes().first() {
+        Some(b'D') => Reply::Done(Outcome::Disabled, vec![]),
+        Some(b'O') => {
+            let mut it = line[1..].split(' ');
+            let flags: u8 = it.next().and_then(|x| x.parse().ok()).expect("harness: malformed reply flags");
+            let origin: u8 = it.next().and_then(|x| x.parse().ok()).expect("harness: malformed reply origin");
+            let live: Vec<usize> = it.map(|x| x.parse().expect("harness: malformed reply id")).collect();
+            Reply::Done(
+                Outcome::Ok {
+                    key: StateKey { live, origin, seen_null: flags & 4 != 0, emitted_first: flags & 8 != 0 },
+                    nontrivial: flags & 1 != 0,
+                    out_of_order: flags & 2 != 0,
+                },
+                vec![],
+            )
+        }
+        Some(b'J') => serde_json::from_str::<Reply>(&line[1..]).expect("harness: malformed reply from worker"),
+        _ => panic!("harness: malformed reply line from worker: {line:?}"),
+    }
+}
+
+fn install_panic_hook(worker: bool) {
     let loud = std::env::var("VERIF_LOUD_PANICS").is_ok();
     std::panic::set_hook(Box::new(move |info| {
         let text = info.to_string();
@@ -873,72 +933,104 @@ fn install_panic_hook() {
         let nounwind = text.contains("unsafe precondition(s) violated")
             || text.contains("cannot unwind")
             || text.contains("panic in a destructor during cleanup");
-        if nounwind {
-            let tx = ABORT_TX.with(|t| t.borrow_mut().take());
-            if let Some(tx) = tx {
-                let _ = tx.send(Reply::Aborted(text.replace('\n', " ")));
-                loop {
-                    std::thread::park();
-                }
+        if nounwind && worker {
+            if let Ok(mut buf) = WORKER_OUT.try_lock() {
+                buf.push(b'J');
+                let _ = serde_json::to_writer(&mut *buf, &Reply::Aborted(text.replace('\n', " ")));
+                buf.push(b'\n');
             }
+            worker_flush();
+            // returning lets the runtime abort this worker process
         }
     }));
 }
 
+/// `c13 --worker`: serve jobs until stdin closes.
+fn worker_main() -> ! {
+    use std::io::BufRead;
+    install_panic_hook(true);
+    let defs = schemas();
+    let stdin = std::io::stdin();
+    for line in stdin.lock().lines() {
+        let line = match line {
+            Ok(l) => l,
+            Err(_) => break,
+        };
+        if line.trim().is_empty() {
+            continue;
+        }
+        let job: Job = serde_json::from_str(&line).expect("harness: worker received a malformed job");
+        for tail in &job.tails {
+            let mut h = job.prefix.clone();
+            h.extend(tail.iter().cloned());
+            let mut trace = vec![];
+            let out = run_history(&defs[job.si], job.sorted, job.enc, &h, if job.want_trace { Some(&mut trace) } else { None });
+            worker_push(&Reply::Done(out, trace));
+        }
+        worker_flush();
+    }
+    std::process::exit(0)
+}
+
 struct Executor {
-    tx: Sender<Job>,
-    rx: Receiver<Reply>,
-    defs: Arc<Vec<SchemaDef>>,
+    child: std::process::Child,
+    stdin: std::io::BufWriter<std::process::ChildStdin>,
+    stdout: std::io::BufReader<std::process::ChildStdout>,
+}
+
+impl Drop for Executor {
+    fn drop(&mut self) {
+        let _ = self.child.kill();
+        let _ = self.child.wait();
+    }
 }
 
 impl Executor {
-    fn new(defs: Arc<Vec<SchemaDef>>) -> Self {
-        let (jtx, jrx) = channel::<Job>();
-        let (rtx, rrx) = channel::<Reply>();
-        let d = Arc::clone(&defs);
-        std::thread::Builder::new()
-            .name("c13-exec".into())
-            .spawn(move || {
-                ABORT_TX.with(|t| *t.borrow_mut() = Some(rtx.clone()));
-                while let Ok(job) = jrx.recv() {
-                    for h in &job.histories {
-                        let mut trace = vec![];
-                        let out = run_history(&d[job.si], job.sorted, job.enc, h, if job.want_trace { Some(&mut trace) } else { None });
-                        if rtx.send(Reply::Done(out, trace)).is_err() {
-                            return;
-                        }
-                    }
-                }
-            })
-            .expect("harness: cannot spawn executor thread");
-        Executor { tx: jtx, rx: rrx, defs }
+    fn new() -> Self {
+        use std::process::{Command, Stdio};
+        let exe = std::env::current_exe().expect("harness: current_exe");
+        let loud = std::env::var("VERIF_LOUD_PANICS").is_ok();
+        let mut child = Command::new(exe)
+            .arg("--worker")
+            .stdin(Stdio::piped())
+            .stdout(Stdio::piped())
+            .stderr(if loud { Stdio::inherit() } else { Stdio::null() })
+            .spawn()
+            .expect("harness: cannot spawn a worker process");
+        let stdin = std::io::BufWriter::new(child.stdin.take().unwrap());
+        let stdout = std::io::BufReader::new(child.stdout.take().unwrap());
+        Executor { child, stdin, stdout }
     }
 
-    /// Replay every history; an abort costs one executor thread (parked forever) and
-    /// the rest of the batch is resubmitted to a fresh one.
-    fn run_batch(&mut self, si: usize, sorted: bool, enc: u8, histories: Vec<Vec<Op>>, want_trace: bool) -> Vec<Reply> {
-        let mut out = Vec::with_capacity(histories.len());
-        let mut pending = histories;
+    /// Replay prefix ++ tail for every tail.  An abort costs one worker process; the
+    /// rest of the batch is resubmitted to a fresh one.
+    fn run_batch(&mut self, si: usize, sorted: bool, enc: u8, prefix: &[Op], tails: Vec<Vec<Op>>, want_trace: bool) -> Vec<Reply> {
+        use std::io::{BufRead, Write};
+        let mut out = Vec::with_capacity(tails.len());
+        let mut pending = tails;
         while !pending.is_empty() {
             let n = pending.len();
-            self.tx
-                .send(Job { si, sorted, enc, histories: pending.clone(), want_trace })
-                .expect("harness: executor thread is gone");
+            let job = Job { si, sorted, enc, prefix: prefix.to_vec(), tails: pending.clone(), want_trace };
+            serde_json::to_writer(&mut self.stdin, &job).expect("harness: sending a job");
+            self.stdin.write_all(b"\n").and_then(|_| self.stdin.flush()).expect("harness: worker stdin closed");
             let mut done = 0;
+            let mut line = String::new();
             while done < n {
-                match self.rx.recv() {
-                    Ok(Reply::Aborted(msg)) => {
-                        *self = Executor::new(Arc::clone(&self.defs)); // the old thread is parked forever
-                        out.push(Reply::Aborted(msg));
-                        done += 1;
-                        break;
-                    }
-                    Ok(r) => {
-                        out.push(r);
-                        done += 1;
-                    }
-                    Err(_) => panic!("harness: executor thread died (panic in harness code)"),
+                line.clear();
+                let read = self.stdout.read_line(&mut line).unwrap_or(0);
+                let reply = if read == 0 {
+                    let status = self.child.wait().map(|s| s.to_string()).unwrap_or_default();
+                    Reply::Aborted(format!("worker process died without a message ({status})"))
+                } else {
+                    parse_reply(&line)
+                };
+                done += 1;
+                if matches!(reply, Reply::Aborted(_)) {
+                    out.push(reply);
+                    *self = Executor::new(); // drops (reaps) the dead worker
+                    break;
                 }
+                out.push(reply);
             }
             pending.drain(..done);
         }
@@ -946,7 +1038,7 @@ impl Executor {
     }
 
     fn run_one(&mut self, si: usize, sorted: bool, enc: u8, h: &[Op]) -> Outcome {
-        match self.run_batch(si, sorted, enc, vec![h.to_vec()], false).pop().unwrap() {
+        match self.run_batch(si, sorted, enc, &[], vec![h.to_vec()], false).pop().unwrap() {
             Reply::Done(o, _) => o,
             Reply::Aborted(msg) => abort_outcome(msg),
         }
@@ -1084,8 +1176,8 @@ fn explore(ctx: &Ctx) {
             "orderings": ["None", "Full (sorted)"],
             "input_encodings": "0 plain; 1 sliced + validity always + garbage under NULL + reversed dictionary with unused entry + merged runs; 2 (dictionary schemas) NULL as dictionary value",
             "keys_per_schema": "3-5 (NULL, type default, collision-prone / long-vs-short view strings)",
-            "phase_full": {"max_depth": depth_full, "max_batch_rows": batch_full, "dedup": false},
-            "phase_dedup": {"max_depth": depth_dedup, "max_batch_rows": batch_dedup, "dedup": "reference key list + (origin of emptiness, NULL seen, partial emit seen)"},
+            "phase_full": {"max_depth": depth_full, "max_batch_rows": batch_full, "dedup": false, "input_encodings": if ctx.quick() { "0 only" } else { "0 to max_depth, others to max_depth - 1" }},
+            "phase_dedup": {"max_depth": depth_dedup, "max_depth_note": if ctx.quick() { "one less for GroupValuesPrimitive / GroupValuesBytes / GroupValuesBoolean" } else { "same for all" }, "max_batch_rows": batch_dedup, "dedup": "reference key list + (origin of emptiness, NULL seen, partial emit seen)"},
             "ops": "intern(batch), emit(All), emit(First(n)) 1<=n<=len, clear_shrink(0|2)"
         }),
     );
@@ -1100,11 +1192,15 @@ fn explore(ctx: &Ctx) {
     }
 
     // configurations, cheapest first
+    let quick_tier = ctx.quick();
     let mut cfgs: Vec<(usize, bool, u8, bool)> = vec![]; // (schema idx, sorted, enc, dedup phase)
     for phase in [false, true] {
         for (i, d) in defs.iter().enumerate() {
             for sorted in [false, true] {
                 for enc in encodings(d) {
+                    if quick_tier && !phase && enc != 0 {
+                        continue; // quick: the non-plain input encodings are explored in the merged phase only
+                    }
                     cfgs.push((i, sorted, enc, phase));
                 }
             }
@@ -1120,10 +1216,18 @@ fn explore(ctx: &Ctx) {
         }
         let def = &defs[si];
         let ops = alphabet(def, if dedup { batch_dedup } else { batch_full });
-        let depth = if dedup { depth_dedup } else { depth_full };
+        // quick: the structurally simple single-column stores get one level less in the merged phase
+        let simple = matches!(def.family, "GroupValuesPrimitive" | "GroupValuesBytes" | "GroupValuesBoolean");
+        let depth = if dedup {
+            if quick_tier && simple { depth_dedup - 1 } else { depth_dedup }
+        } else if !quick_tier && enc != 0 {
+            depth_full - 1 // thorough: the deepest unmerged level is explored with plain inputs only
+        } else {
+            depth_full
+        };
         let mut out_of_order = 0u64;
         let mut emit_empty_refused = 0u64;
-        let mut exec = Executor::new(Arc::clone(&defs));
+        let mut exec = Executor::new();
         let mut seen: HashSet<StateKey> = HashSet::new();
         let (mut states, mut transitions) = (0u64, 0u64);
         let mut complete = true;
@@ -1139,29 +1243,34 @@ fn explore(ctx: &Ctx) {
                 return;
             }
         }
-        let mut frontier: Vec<Vec<Op>> = vec![vec![]];
+        let mut frontier: Vec<(Vec<Op>, usize)> = vec![(vec![], 0)]; // (history, live keys after it)
         'bfs: for d in 1..=depth {
-            let mut next: Vec<Vec<Op>> = vec![];
-            for hist in &frontier {
+            let mut next: Vec<(Vec<Op>, usize)> = vec![];
+            for (hist, live_len) in &frontier {
                 if ctx.out_of_time() {
                     complete = false;
                     break 'bfs;
                 }
                 let want_trace = d >= 3 && !dedup && ctx.want_sample();
-                let cands: Vec<Vec<Op>> = ops
+                // emit(First(n)) needs 1 <= n <= len: not enabled otherwise (known from the reference state)
+                let enabled: Vec<&Op> = ops.iter().filter(|op| !matches!(op, Op::EmitFirst(n) if *n > *live_len)).collect();
+                let cands: Vec<Vec<Op>> = enabled
                     .iter()
                     .map(|op| {
                         let mut h = hist.clone();
-                        h.push(op.clone());
+                        h.push((*op).clone());
                         h
                     })
                     .collect();
-                let replies = exec.run_batch(si, sorted, enc, cands.clone(), want_trace);
+                let replies = exec.run_batch(si, sorted, enc, hist, enabled.iter().map(|op| vec![(*op).clone()]).collect(), want_trace);
                 ctx.evals(cands.len() as u64);
                 for (h, reply) in cands.into_iter().zip(replies) {
                     let (out, trace) = match reply {
                         Reply::Done(o, t) => (o, t),
-                        Reply::Aborted(msg) => (abort_outcome(msg), vec![]),
+                        Reply::Aborted(msg) => {
+                            ctx.count("worker_aborts", 1);
+                            (abort_outcome(msg), vec![])
+                        }
                     };
                     match out {
                         Outcome::Ok { key, nontrivial, out_of_order: ooo } => {
@@ -1180,9 +1289,10 @@ fn explore(ctx: &Ctx) {
                                 }
                             }
                             // phase 'full': nothing is merged
+                            let n_live = key.live.len();
                             if !dedup || seen.insert(key) {
                                 states += 1;
-                                next.push(h);
+                                next.push((h, n_live));
                             }
                         }
                         Outcome::Disabled => {
@@ -1219,6 +1329,7 @@ fn explore(ctx: &Ctx) {
         ctx.add_states(states);
         ctx.add_transitions(transitions);
         ctx.count(if dedup { "configs_dedup" } else { "configs_full" }, 1);
+        ctx.count(&format!("transitions[{} {}]", def.family, if dedup { "dedup" } else { "full" }), transitions);
         ctx.count("emit_on_empty_refused", emit_empty_refused);
         ctx.count("interns_numbering_new_keys_out_of_first_seen_order(ordering None only; allowed)", out_of_order);
         if !complete {
@@ -1236,7 +1347,7 @@ fn replay(v: &Value) -> Result<(), String> {
     let defs = Arc::new(schemas());
     let si = defs.iter().position(|d| d.name == c.schema).ok_or_else(|| format!("unknown schema {}", c.schema))?;
     // every prefix is checked by run_history itself (it stops at the first failing step)
-    let mut exec = Executor::new(Arc::clone(&defs));
+    let mut exec = Executor::new();
     match exec.run_one(si, c.sorted, c.enc, &c.history) {
         Outcome::Ok { .. } | Outcome::Disabled => Ok(()),
         Outcome::Violation { code, detail } => Err(format!("{code}: {detail}")),
@@ -1244,7 +1355,10 @@ fn replay(v: &Value) -> Result<(), String> {
 }
 
 fn main() {
-    install_panic_hook();
+    if std::env::args().any(|a| a == "--worker") {
+        worker_main();
+    }
+    install_panic_hook(false);
     run_check(
         "C13",
         Level::ModelChecking,
